@@ -138,7 +138,7 @@ def plan(tier, seed):
         for dtname in ("float32", "float16", "bfloat16"):
             tasks.append({"kind": "layout", "q": q, "dt": dtname})
             # size ladder (more than 2^20 elements, non power-of-two dimensions, every layout) and repetition ladder
-            big = [[1025, 1031]] if tier == "quick" else [[1025, 1031], [2049, 2050], [3, 700, 521], [1048583]]
+            big = [[1025, 1031]] if tier == "quick" else [[1025, 1031], [2049, 2050], [3, 700, 521], [1048583]] + ([[2900, 2901], [4100, 4224]] if dtname == "float32" else [])
             for shp in big:
                 tasks.append({"kind": "layout", "q": q, "dt": dtname, "shapes": [shp]})
             tasks.append({"kind": "repeat", "q": q, "dt": dtname, "n": 48 if tier == "quick" else 200})
